@@ -254,8 +254,14 @@ impl<'a> StateMachine<'a> {
     // TODO: I'm not sure the above description is accurate; I think this
     // function needs a more accurate name.
     pub fn should_handle(&self) -> bool {
-        let style = self.config.get_style(&self.state);
-        !(style.is_raw && style.decoration_style == DecorationStyle::NoDecoration)
+        // (only the states of elements that can be styled "raw" have a style to consult: a header
+        // look-alike may turn up in any state, e.g. inside a merge conflict of a `diff -u` stream)
+        match self.config.get_style_if_any(&self.state) {
+            Some(style) => {
+                !(style.is_raw && style.decoration_style == DecorationStyle::NoDecoration)
+            }
+            None => true,
+        }
     }
 }
 
